@@ -144,6 +144,11 @@ svalue_t* call_efun_callback (function_to_call_t * ftc, int n) {
 
 static svalue_t global_lvalue_byte = { .type = T_LVALUE_BYTE };
 
+/* Narrow a 64-bit LPC index / range bound to int. Values that do not fit can never be inside a string, buffer or
+ * array; they are pinned far outside so that the bounds checks that follow reject them instead of seeing the
+ * low 32 bits. */
+#define INDEX_TO_INT(n)	((int)((n) > 0x3fffffff ? 0x3fffffff : ((n) < -0x3fffffff ? -0x3fffffff : (n))))
+
 /**
  * Compute the address of an array element.
  * Used by the F_INDEX_LVALUE and F_RINDEX_LVALUE opcodes.
@@ -322,14 +327,14 @@ static void push_lvalue_range (int code) {
   if (!((--sp)->type == T_NUMBER))
     error ("*Illegal 2nd index type to range lvalue.");
 
-  ind2 = (code & 0x01) ? (size - (int)sp->u.number) : (int)sp->u.number;
+  ind2 = (code & 0x01) ? (size - INDEX_TO_INT (sp->u.number)) : INDEX_TO_INT (sp->u.number);
   if (++ind2 < 0 || (ind2 > size))
     error ("*The 2nd index to range lvalue must be >= -1 and < sizeof(indexed value)");
 
   if (!((--sp)->type == T_NUMBER))
     error ("*Illegal 1st index type to range lvalue");
 
-  ind1 = (code & 0x10) ? (size - (int)sp->u.number) : (int)sp->u.number;
+  ind1 = (code & 0x10) ? (size - INDEX_TO_INT (sp->u.number)) : INDEX_TO_INT (sp->u.number);
 
   if (ind1 < 0 || ind1 > size)
     error ("*The 1st index to range lvalue must be >= 0 and <= sizeof(indexed value)");
@@ -2045,8 +2050,8 @@ void eval_instruction (const char *p) {
                 if ((sp - 1)->type != T_NUMBER)
                   error ("*Buffer indexes must be integers.");
 
-                i = (int)(sp - 1)->u.number;
-                if ((i > (int)sp->u.buf->size) || (i < 0))
+                i = INDEX_TO_INT ((sp - 1)->u.number);
+                if ((i >= (int)sp->u.buf->size) || (i < 0))	/* (item[size] is not part of the buffer) */
                   error ("*Buffer index out of bounds.");
                 i = sp->u.buf->item[i];
                 free_buffer (sp->u.buf);
@@ -2060,7 +2065,7 @@ void eval_instruction (const char *p) {
                   {
                     error ("*String indexes must be integers.");
                   }
-                i = (int)(sp - 1)->u.number;
+                i = INDEX_TO_INT ((sp - 1)->u.number);
                 if ((i > (int)SVALUE_STRLEN (sp)) || (i < 0))
                   error ("*String index out of bounds.");
                 i = (unsigned char) sp->u.string[i];
@@ -2074,7 +2079,7 @@ void eval_instruction (const char *p) {
 
                 if ((sp - 1)->type != T_NUMBER)
                   error ("*Array indexes must be integers.");
-                i = (int)(sp - 1)->u.number;
+                i = INDEX_TO_INT ((sp - 1)->u.number);
                 if (i < 0)
                   error ("*Array index must be positive or zero.");
                 arr = sp->u.arr;
@@ -2110,8 +2115,8 @@ void eval_instruction (const char *p) {
                 if ((sp - 1)->type != T_NUMBER)
                   error ("*Indexing a buffer with an illegal type.");
 
-                i = sp->u.buf->size - (int)(sp - 1)->u.number;
-                if ((i > (int)sp->u.buf->size) || (i < 0))
+                i = sp->u.buf->size - INDEX_TO_INT ((sp - 1)->u.number);
+                if ((i >= (int)sp->u.buf->size) || (i < 0))
                   error ("*Buffer index out of bounds.");
 
                 i = sp->u.buf->item[i];
@@ -2127,7 +2132,7 @@ void eval_instruction (const char *p) {
                   {
                     error ("*Indexing a string with an illegal type.");
                   }
-                i = (int)(len - (sp - 1)->u.number);
+                i = INDEX_TO_INT ((int64_t)len - (sp - 1)->u.number);
                 if ((i > (int)len) || (i < 0))
                   error ("*String index out of bounds.");
                 i = (unsigned char) sp->u.string[i];
@@ -2141,7 +2146,7 @@ void eval_instruction (const char *p) {
 
                 if ((sp - 1)->type != T_NUMBER)
                   error ("*Indexing an array with an illegal type.");
-                i = arr->size - (int)(sp - 1)->u.number;
+                i = arr->size - INDEX_TO_INT ((sp - 1)->u.number);
                 if (i < 0 || i >= (int)(arr->size))
                   error ("*Array index out of bounds.");
                 assign_svalue_no_free (--sp, &arr->item[i]);
